@@ -78,7 +78,7 @@ TABLE = {
                               "duplicate_declaration_rejected", "push_ns_appends", "push_ns_limit", "ns_values_limit_is"])]),
  "C09": dict(
    intro="C09 -- entity expansion is bounded yet not over-restricted.  (1) the loop detector is sound and complete\n   w.r.t. the trace specification, with the documented numbers (10, 255) against constants regenerated from the\n   source; (2) the node budget over a whole parse: a successfully parsed document has at most\n   1 + len + 256 * len * amp nodes (hence <= 256 * (len + 1) * (amp + 1)), for every input and all options;\n   without a DOCTYPE at most len + 1 nodes; (3) the byte budget: the text of all Text nodes plus all attribute\n   values (text_len + value_len, BudgetBytesBuild.v) is at most len + 256 * len * amp bytes.",
-   imports=["From RX.Spec Require Import Detector.", "From RX.Proofs Require Import DetectorProofs OptionsParam OptionsBuild OptionsMain OptionsDtd BudgetStream BudgetTok BudgetBuild BudgetAcct BudgetMain BudgetNoEnt BudgetBytesBuild BudgetBytesTok BudgetBytesAcct BudgetBytesMain."],
+   imports=["From RX.Spec Require Import Detector.", "From RX.Proofs Require Import DetectorProofs OptionsParam OptionsBuild OptionsMain OptionsDtd BudgetStream BudgetTok BudgetBuild BudgetAcct BudgetMain BudgetNoEnt BudgetBytesBuild BudgetBytesTok BudgetBytesAcct BudgetBytesMain CycleStream CycleContent CycleAttr CycleEntered."],
    groups=[("BudgetMain.v", ["expansion_budget_nodes", "expansion_budget_tight"]), ("BudgetNoEnt.v", ["budget_no_entities"]),
            ("BudgetBytesMain.v", ["expansion_budget_bytes", "expansion_budget_bytes_tight"]),
            ("DetectorProofs.v", ["enter_agrees_model", "detector_sound", "detector_complete", "limits_bound_depth", "limits_bound_nested",
@@ -114,10 +114,11 @@ TABLE = {
            ("LexerProofs.v", ["parse_comment_post", "parse_pi_post", "parse_cdata_post", "parse_text_post", "parse_element_tokens",
                               "parse_close_element_post"], "Local Notation token := Tokenizer.token.", "forall (text : bytes),")]),
  "C14": dict(
-   intro="C14 -- text positions and error reports: text_pos_at is total on valid UTF-8, clamps, counts\n   rows by LF and columns in characters, stays in bounds and moves with inserted line breaks / spaces;\n   every Err returned by parse carries the position of an offset inside the input (or is one of the\n   seven position-less variants, which report 1:1), hence row / column are within the input.",
-   imports=["From RX.Proofs Require Import PositionProofs ErrPosStream ErrPosTokenizer ErrPosParse ErrPayload."],
+   intro="C14 -- text positions and error reports: text_pos_at is total on valid UTF-8, clamps, counts\n   rows by LF and columns in characters, stays in bounds and moves with inserted line breaks / spaces;\n   every Err returned by parse carries the position of an offset inside the input (or is one of the\n   seven position-less variants, which report 1:1), hence row / column are within the input.  Shift over a whole\n   parse: whitespace put in front of a document (no BOM / declaration) leaves the outcome unchanged -- an Ok result is\n   the same document with shifted offsets, an Err has the same variant and payload and is reported at the same place of\n   the document (offset + k), i.e. k spaces move the column of a row-1 error by k, k line breaks move the row by k.",
+   imports=["From RX.Proofs Require Import PositionProofs ErrPosStream ErrPosTokenizer ErrPosParse ErrPayload RangeShiftBuilder ErrShiftBase ErrShiftFinal."],
    groups=[("PositionProofs.v", ["text_pos_total_valid", "text_pos_clamped", "text_pos_on_boundary", "text_pos_bounds", "text_pos_shift_lines_valid",
                                  "text_pos_shift_spaces_valid", "text_pos_shift_lines_gen", "text_pos_shift_spaces_gen"]),
+           ("ErrShiftFinal.v", ["parse_err_shift", "parse_ok_shift", "parse_err_shift_spaces", "parse_err_shift_lines"]),
            ("ErrPosTokenizer.v", ["tokenizer_errors_positioned"], "Local Notation token := Tokenizer.token."),
            ("ErrPosParse.v", ["token_errors_positioned", "parse_errors_positioned", "parse_error_in_bounds"]),
            ("ErrPayload.v", ["parse_error_payload_from_source"])]),
@@ -150,6 +151,61 @@ TABLE = {
 
 
 EXTRA = {
+ "C09": """
+(* (4) reference cycles end in EntityReferenceLoop.  S is any set of entity names that is CLOSED: the first
+   declaration of each member has a value  plain & m ; plain [< ...]  with m again in S (CycleContent.v:
+   closed / value_into; names ASCII, m not one of the five predefined names).  Then a text token that
+   reaches a member of S -- directly, or through any entity that leads into S -- fails with
+   EntityReferenceLoop: never Ok, never another error, at any detector depth and count.  app_ok c says the
+   text node for the plain text before the reference can be appended (otherwise NodesLimitReached comes
+   first).  The same for attribute values.  Whole-document instances: Proofs/CycleExamples.v. *)
+Theorem C09_cycle_in_content_token :
+  forall (text : bytes) (es : list entity) (S : bytes -> Prop),
+  closed text es S ->
+  forall (t : slice) (r : N * N) (c : context) (pre m mid : list N),
+  sl_start t = fst r -> sl_end t = snd r -> fst r <= snd r -> snd r <= tlen text ->
+  sub text (fst r) (snd r) = pre ++ 38 :: m ++ 59 :: mid ->
+  plain pre -> ascii_name m -> predefined_b m = false -> S m ->
+  is_boundary text (fst r + blen pre + blen m + 2) = true ->
+  c_entities c = es -> app_ok c ->
+  exists p : textpos, Parse.token text (TText t r) c = Err (EntityReferenceLoop p).
+Proof. exact cycle_in_content_token. Qed.
+Print Assumptions C09_cycle_in_content_token.
+
+Theorem C09_cycle_entered :
+  forall (text : bytes) (es : list entity) (S : bytes -> Prop),
+  closed text es S ->
+  forall (lvl : nat) (c : context) (v : slice) (s0 : Stream.stream),
+  (entity_levels <= lvl)%nat -> value_into text S v -> c_entities c = es -> app_ok c ->
+  stream_from_substr text (sl_start v) (sl_end v) = Ok s0 ->
+  exists p : textpos, parse_content_lvl text lvl s0 c = Err (EntityReferenceLoop p).
+Proof. exact cycle_entered. Qed.
+Print Assumptions C09_cycle_entered.
+
+Theorem C09_cycle_in_content_entered :
+  forall (text : bytes) (es : list entity) (S : bytes -> Prop) (lvl : nat) (t : slice)
+         (r : N * N) (c : context) (pre : list N) (n : bytes) (mid : list N) (e : entity),
+  closed text es S -> find_entity text es n = Some e -> value_into text S (en_value e) ->
+  (entity_levels <= lvl)%nat ->
+  sl_start t = fst r -> sl_end t = snd r -> fst r <= snd r -> snd r <= tlen text ->
+  sub text (fst r) (snd r) = pre ++ 38 :: n ++ 59 :: mid ->
+  plain pre -> ascii_name n -> predefined_b n = false ->
+  is_boundary text (fst r + blen pre + blen n + 2) = true ->
+  c_entities c = es -> app_ok c ->
+  exists p : textpos,
+    process_text_with text (parse_content_lvl text lvl) t r c = Err (EntityReferenceLoop p).
+Proof. exact cycle_in_content_entered. Qed.
+Print Assumptions C09_cycle_in_content_entered.
+
+Theorem C09_cycle_in_normalize_attribute :
+  forall (text : bytes) (es : list entity) (S : bytes -> Prop),
+  attr_closed text es S ->
+  forall (v : slice) (c : context),
+  attr_value_into text S v -> c_entities c = es ->
+  exists p : textpos, normalize_attribute text v c = Err (EntityReferenceLoop p).
+Proof. exact cycle_in_normalize_attribute. Qed.
+Print Assumptions C09_cycle_in_normalize_attribute.
+""",
  "C04": """
 (* the same, on the model's own loop: for a text token whose chunks (as read by parse_next_chunk)
    contain no general entity reference, process_text appends exactly one text fragment, the
